@@ -65,7 +65,10 @@ func Parse(filename string, data []byte) (*File, error) {
 		headOff := hdrLen + hashOff + i*4
 		head := m.load32(headOff)
 		off := head
-		for off != 0 {
+		for n := 0; off != 0; n++ {
+			if n > len(data)/recordUnit {
+				return corrupt() // cycle
+			}
 			ename, next, v, ok := m.entryAt(off)
 			if !ok {
 				return corrupt()
